@@ -741,11 +741,17 @@ fn make_exclusive(def: usize, name: usize) -> impl FnMut(&mut World, Local<u32>)
     }
 }
 
-/// `World::send_system_event` / `World::broadcast` / `World::entity_event` (`ReactWorldExt`).
+/// `World::send_system_event` / `World::broadcast` / `World::entity_event` (`ReactWorldExt`); a manual run applied in-line
+/// (`SystemCommand::apply`).
 fn direct_send(world: &mut World, act: &SAct)
 {
     match act
     {
+        SAct::Run(r) =>
+        {
+            let Some(e) = resolve(*r) else { return };
+            bevy::ecs::world::Command::apply(SystemCommand(e), world);
+        }
         SAct::SysEvent(r, ty, pid) =>
         {
             let Some(e) = resolve(*r) else { return };
